@@ -203,13 +203,21 @@ func randPath(r *rng, n int, den int, span int, exact bool) *numGlyph {
 	if r.chance(1, 6) {
 		g.wy = float64(r.rangeInt(-500, 500))
 	}
-	for k := r.intn(3); k > 0; k-- {
+	stem := func() (funit.Int16, funit.Int16) {
+		if r.chance(1, 8) {
+			// the whole 16-bit range: the width operand (difference) needs more than 16 bits
+			return funit.Int16(pick(r, []int{-32768, -32767, -30000, -20000, 0})), funit.Int16(pick(r, []int{20000, 30000, 32766, 32767}))
+		}
 		a := r.rangeInt(-1200, 1200)
-		g.hs = append(g.hs, funit.Int16(a), funit.Int16(a+r.rangeInt(-200, 1500)))
+		return funit.Int16(a), funit.Int16(a + r.rangeInt(-200, 1500))
 	}
 	for k := r.intn(3); k > 0; k-- {
-		a := r.rangeInt(-1200, 1200)
-		g.vs = append(g.vs, funit.Int16(a), funit.Int16(a+r.rangeInt(-200, 1500)))
+		a, b := stem()
+		g.hs = append(g.hs, a, b)
+	}
+	for k := r.intn(3); k > 0; k-- {
+		a, b := stem()
+		g.vs = append(g.vs, a, b)
 	}
 	if r.chance(1, 8) {
 		g.hs = append(g.hs, 7) // odd count: last value ignored by the writer
